@@ -1715,7 +1715,7 @@ func runC19(c *Ctx) {
 									anchor = hostCall
 								}
 								if fv, _ := loadedField(x.Common().Args[0]); fv == supVar && instrDominates(x, anchor) {
-									if _, isP := x.Common().Args[1].(*ssa.Parameter); isP {
+									if c.isCapListOf(x.Common().Args[1], neg, 0) {
 										addOK = true
 									}
 								}
@@ -2326,6 +2326,29 @@ func (c *Ctx) capDispatchRule(rule string) {
 			if _, isSl := arg.Type().Underlying().(*types.Slice); isSl && i >= 1 {
 				takesList = true
 			}
+			// ... or the reply itself, to take the list from
+			if i >= 1 && arg == line {
+				takesList = true
+			}
+		}
+		if !takesList && tableKeys == nil {
+			// ... or nothing at all (a refusal needs no list), when the call is selected by a subcommand comparison
+			for _, cd := range CondsAt(call.Block()) {
+				cd = unwrapNot(cd)
+				if bo, isB := cd.V.(*ssa.BinOp); isB && (bo.Op == token.EQL || bo.Op == token.NEQ) && (bo.Op == token.EQL) == cd.True {
+					other := bo.Y
+					_, isK := constString(bo.X)
+					if !isK {
+						_, isK = constString(bo.Y)
+						other = bo.X
+					}
+					if isK {
+						if _, isArg := c.lineArgIndex(other, line); isArg && len(call.Call.Args) == 1 {
+							takesList = true
+						}
+					}
+				}
+			}
 		}
 		if !takesList {
 			return
@@ -2769,6 +2792,64 @@ func (c *Ctx) deletesWhatOtherLacks(fn *ssa.Function) bool {
 			bad = true
 		}
 	})
+	if n == 0 && len(fn.Params) >= 2 {
+		// delegation: fn hands "other.Has" to a filter helper that deletes exactly what the predicate rejects
+		okDel := false
+		funcInstrs(fn, func(in ssa.Instruction) {
+			call, ok := in.(*ssa.Call)
+			if !ok || call.Call.IsInvoke() {
+				return
+			}
+			h := call.Call.StaticCallee()
+			if h == nil || !c.InModuleFn(h) || h.Blocks == nil || (h.Object() != nil && h.Object().Exported()) {
+				return
+			}
+			for i, av := range call.Call.Args {
+				mc, isMC := av.(*ssa.MakeClosure)
+				if !isMC || len(mc.Bindings) != 1 || mc.Bindings[0] != ssa.Value(fn.Params[1]) || i >= len(h.Params) {
+					continue
+				}
+				bf, _ := mc.Fn.(*ssa.Function)
+				if bf == nil {
+					continue
+				}
+				target := c.unthunk(bf)
+				if target == nil || sigString(target) != "(string)(bool)" {
+					continue
+				}
+				keep := h.Params[i]
+				nd, badD := 0, false
+				funcInstrs(h, func(y ssa.Instruction) {
+					dc, isC := y.(*ssa.Call)
+					if !isC {
+						return
+					}
+					if b, isB := dc.Call.Value.(*ssa.Builtin); !isB || b.Name() != "delete" {
+						return
+					}
+					nd++
+					rejects := false
+					for _, cd := range CondsAt(dc.Block()) {
+						cd = unwrapNot(cd)
+						if kc, isKC := cd.V.(*ssa.Call); isKC && kc.Call.Value == ssa.Value(keep) {
+							if !cd.True {
+								rejects = true
+							} else {
+								badD = true
+							}
+						}
+					}
+					if !rejects {
+						badD = true
+					}
+				})
+				if nd > 0 && !badD {
+					okDel = true
+				}
+			}
+		})
+		return okDel
+	}
 	return n > 0 && !bad
 }
 
@@ -3043,6 +3124,49 @@ func (c *Ctx) capAddRule(rule string) {
 				}
 			}
 		}
+		// the helper form: name, enabled := split(tok); caps[name] = enabled - judged at the helper's returns
+		if ev, isEV := mu.Value.(*ssa.Extract); isEV {
+			if ek, isEK := mu.Key.(*ssa.Extract); isEK && ek.Tuple == ev.Tuple {
+				if hc, isHC := ev.Tuple.(*ssa.Call); isHC && !hc.Call.IsInvoke() && hc.Call.StaticCallee() != nil && c.InModuleFn(hc.Call.StaticCallee()) && len(hc.Call.Args) == 1 && len(hc.Call.StaticCallee().Params) == 1 {
+					h := hc.Call.StaticCallee()
+					tokP := ssa.Value(h.Params[0])
+					funcInstrs(h, func(y ssa.Instruction) {
+						rt, isR := y.(*ssa.Return)
+						if !isR || len(rt.Results) <= ek.Index || len(rt.Results) <= ev.Index {
+							return
+						}
+						n++
+						key, valV := retVal(rt, ek.Index), retVal(rt, ev.Index)
+						ok3, why3 := false, "the helper's answer is not a constant decided by HasPrefix(token, \"-\")"
+						if kc, isK := valV.(*ssa.Const); isK && kc.Value != nil {
+							val := kc.Value.String() == "true"
+							pol, found := false, false
+							for _, cd := range CondsAt(rt.Block()) {
+								cd = unwrapNot(cd)
+								if call, isC := cd.V.(*ssa.Call); isC && calleeName(&call.Call) == "strings.HasPrefix" && call.Call.Args[0] == tokP {
+									if p, okP := constString(call.Call.Args[1]); okP && p == "-" {
+										pol, found = cd.True, true
+									}
+								}
+							}
+							switch {
+							case !found:
+							case val && !pol && key == tokP:
+								ok3, why3 = true, "token without '-' -> enabled under its own name"
+							case !val && pol:
+								if sl, isS := key.(*ssa.Slice); isS && sl.X == tokP && sl.High == nil {
+									if k, okK := constInt(sl.Low); okK && k == 1 {
+										ok3, why3 = true, "\"-name\" -> name disabled"
+									}
+								}
+							}
+						}
+						r.Add(rule, fmt.Sprintf("cap-add#%d", n), c.InstrPos(rt), c.FuncKey(h), "Add records \"-name\" as name disabled and any other token as enabled", ok3, why3)
+					})
+					return
+				}
+			}
+		}
 		kc, isK := mu.Value.(*ssa.Const)
 		if !isK || kc.Value == nil {
 			r.Add(rule, fmt.Sprintf("cap-add#%d", n), c.InstrPos(mu), c.FuncKey(add), "a token is recorded as enabled (true) or disabled (false) by a constant", false, "stored value is computed: "+mu.Value.String())
@@ -3247,4 +3371,54 @@ func (c *Ctx) nothingAfterDisconnectedRule(rule string) {
 		}
 	}
 	r.Floor(rule, "DISCONNECTED dispatch in the teardown", n, 1)
+}
+
+// isCapListOf: v, in fn, is the capability list of the reply being handled: a
+// slice parameter of fn (the caller split the reply), or strings.Fields of the
+// Text() of fn's line parameter - taken here or by a helper that is handed
+// that parameter.
+func (c *Ctx) isCapListOf(v ssa.Value, fn *ssa.Function, depth int) bool {
+	if depth > 2 {
+		return false
+	}
+	if pr, ok := v.(*ssa.Parameter); ok && pr.Parent() == fn {
+		_, isSl := pr.Type().Underlying().(*types.Slice)
+		return isSl
+	}
+	call, ok := v.(*ssa.Call)
+	if !ok || call.Call.IsInvoke() {
+		return false
+	}
+	isLineParam := func(x ssa.Value) bool {
+		pr, ok := x.(*ssa.Parameter)
+		if !ok || pr.Parent() != fn {
+			return false
+		}
+		pt, isP := pr.Type().Underlying().(*types.Pointer)
+		if !isP {
+			return false
+		}
+		nt, _ := pt.Elem().(*types.Named)
+		return nt != nil && nt.Obj().Name() == "Line"
+	}
+	if calleeName(&call.Call) == "strings.Fields" {
+		if tc, ok := call.Call.Args[0].(*ssa.Call); ok && !tc.Call.IsInvoke() && tc.Call.StaticCallee() != nil && tc.Call.StaticCallee().Name() == "Text" && len(tc.Call.Args) == 1 && isLineParam(tc.Call.Args[0]) {
+			return true
+		}
+		return false
+	}
+	h := call.Call.StaticCallee()
+	if h == nil || !c.InModuleFn(h) || h.Blocks == nil || len(call.Call.Args) != 1 || !isLineParam(call.Call.Args[0]) || len(h.Params) != 1 {
+		return false
+	}
+	n, all := 0, true
+	funcInstrs(h, func(in ssa.Instruction) {
+		if rt, ok := in.(*ssa.Return); ok && len(rt.Results) == 1 {
+			n++
+			if !c.isCapListOf(retVal(rt, 0), h, depth+1) {
+				all = false
+			}
+		}
+	})
+	return all && n > 0
 }
